@@ -9,6 +9,8 @@ descs=[False] must keep the LOWEST scoring PSM of every spectrum and rank low sc
 q-values are recomputed from the definition with exact fractions; only label value 1 / True counts as target.
 mokapot.dataset.update_labels, the counter brew applies to the learned scores, must label at the eval_fdr it is given
 (brew passes test_fdr): checked directly on generated files and through brew runs with test_fdr far from 0.01.
+"The best single feature" is the one of the fold with the LARGEST count: the fold-layout cases (build_fold_frames) make the
+folds disagree about it (another feature, the other direction, or only another count) with the weakest fold at any position.
 """
 import json
 import logging
@@ -75,8 +77,27 @@ class GoodProba(_Base):
         return np.column_stack([-s, s])
 
 
+class LossyMemoProba(_Base):
+    """reproduces the best feature on the rows it was fitted on; on unseen rows it does so too, except that the rows whose
+    id falls into `loss` of 16 residue classes are pushed below everything (passes training, worse on held-out rows)"""
+
+    def __init__(self, sign=1.0, loss=6):
+        self.sign = sign
+        self.loss = loss
+
+    def predict_proba(self, X):
+        X = np.asarray(X, dtype=float)
+        ids = X[:, 2].astype(np.int64)
+        seen = np.array([int(v) in self.seen_ for v in ids])
+        lost = ~seen & ((ids * 7919) % 16 < int(self.loss))
+        s = np.where(lost, -1000.0, 2.0 * self.sign * X[:, 0] + 0.5)
+        return np.column_stack([-s, s])
+
+
 ESTIMATORS = {"const-dec": ConstDec, "const-proba": ConstProba, "inverted-dec": InvertedDec, "memo-proba": MemoProba,
               "good-dec": GoodDec, "good-proba": GoodProba}
+# used by the fold-layout cases only (kept out of ESTIMATORS: the random configurations draw from that dict)
+ALL_ESTIMATORS = dict(ESTIMATORS, **{"lossy-memo-proba": LossyMemoProba})
 
 
 # ------------------------------------------------------------------------------------------------ q-value oracle
@@ -167,7 +188,59 @@ def build_block_frames(c):
     return frames
 
 
+def build_fold_frames(c):
+    """c['layout']: data whose best single feature differs between the cross-validation folds. One PSM per spectrum; the
+    test fold of every row is read from the split of a skeleton file (it depends on the spectrum columns only), then the
+    features are filled in by fold. f0 ~ N(0,1) (on the scale in which higher is better; negated for a lower-is-better f0),
+    f1 ~ N(0,1), f2 = row id.
+    kind 'switch': targets of test fold `poor` get f0 ~ N(8,1) with probability `rich` (only the models of the OTHER folds
+    train on them; the model of fold `poor` sees an uninformative f0), and every target gets with probability `weak_frac`
+    a good value of the weak feature: weak='f1': f1 ~ N(8,1) towards the end opposite to f0's good end; weak='f0': f0 ~
+    N(-8,1), beyond every decoy at the BAD end of f0 (same feature, other direction).
+    kind 'graded': targets of test fold i get f0 ~ N(8,1) with probability fracs[i]: every fold's model starts from f0
+    in the same direction, with different counts."""
+    from harness.datasets import scratch as _scratch
+    rng = np.random.default_rng(c["data_seed"])
+    pos, neg = ENCODINGS[c["encoding"]]
+    lay = c["layout"]
+    frames, rid = [], 0
+    for n in c["n_spec"]:
+        ids = np.arange(rid, rid + n)
+        rid += n
+        tgt = rng.random(n) < 0.5
+        df = pd.DataFrame(dict(SpecId=ids, Label=[pos if t else neg for t in tgt], ScanNr=np.arange(n),
+                               ExpMass=100.0 + np.arange(n), f0=0.0, f1=0.0, f2=ids, Peptide=["PEP%dK" % i for i in ids],
+                               Proteins=["prot%d" % (i % 4) for i in range(n)]))
+        if c["encoding"] == "bool":
+            df["Label"] = df["Label"].astype(bool)
+        with _scratch("c07f_") as d:
+            split = make_ds(df, d / "skel.parquet")._split(c["folds"], np.random.default_rng(0))
+        fold = np.full(n, -1)
+        for i, rows in enumerate(split):
+            fold[np.asarray(rows, dtype=int)] = i
+        f0, f1 = rng.normal(size=n), rng.normal(size=n)
+        u, v = rng.random(n), rng.random(n)
+        g0, g1 = rng.normal(8.0, 1.0, n), rng.normal(8.0, 1.0, n)
+        if lay["kind"] == "switch":
+            rich = tgt & (fold == lay["poor"]) & (u < lay["rich"])
+            weak = tgt & ~rich & (v < lay["weak_frac"])
+            f0[rich] = g0[rich]
+            if lay["weak"] == "f1":
+                f1[weak] = g1[weak] * (1.0 if c["lower"] else -1.0)     # file scale: the end opposite to f0's good end
+            else:
+                f0[weak] = -g1[weak]
+        else:
+            good = tgt & (u < np.asarray(lay["fracs"], dtype=float)[fold])
+            f0[good] = g0[good]
+        df["f0"] = -f0 if c["lower"] else f0
+        df["f1"] = f1
+        frames.append(df)
+    return frames
+
+
 def build_frames(c):
+    if c.get("layout"):
+        return build_fold_frames(c)
     if c.get("blocks"):
         return build_block_frames(c)
     rng = np.random.default_rng(c["data_seed"])
@@ -214,13 +287,17 @@ def fold_structure(c, frames, d):
 
 
 # ------------------------------------------------------------------------------------------------ brew check
+FOLD_BEST = []      # per fold the largest independent count of the last run_brew_case that got as far as the comparison
+
+
 def run_brew_case(c, d, want_result=False):
     import mokapot
     from mokapot.model import Model
+    FOLD_BEST[:] = []
     frames = build_frames(c)
     dss = datasets(c, frames, d)
     sign = -1.0 if c["lower"] else 1.0
-    model = Model(ESTIMATORS[c["est"]](sign=sign), scaler="as-is", train_fdr=c["train_fdr"], max_iter=c["max_iter"],
+    model = Model(ALL_ESTIMATORS[c["est"]](sign=sign, **c.get("est_kw", {})), scaler="as-is", train_fdr=c["train_fdr"], max_iter=c["max_iter"],
                   direction=c.get("direction"), override=c.get("override", False), rng=c["rng"])
     try:
         psms, models, scores, descs = mokapot.brew(dss, model=model, test_fdr=c["test_fdr"], folds=c["folds"],
@@ -265,6 +342,7 @@ def run_brew_case(c, d, want_result=False):
                 table[(i, f, dsc)] = n_accepted(col, t_tr, c["train_fdr"], dsc)
     B = max(table.values())
     best_pairs = set((f, dsc) for (i, f, dsc), v in table.items() if v == B)
+    FOLD_BEST[:] = [max(v for (j, f, dsc), v in table.items() if j == i) for i in range(c["folds"])]
     # the count each fold's model recorded for its starting feature (brew compares the largest of them with what the
     # learned scores accept): it has to be the independently counted number for the feature and direction it names
     who = "direction" if c.get("direction") else "auto"
@@ -291,14 +369,15 @@ def run_brew_case(c, d, want_result=False):
         kind = "fallback"
         if len(set(bool(x) for x in descs)) != 1 or (fb[0], bool(descs[0])) not in best_pairs:
             bad.append(("fallback-not-best-feature-or-direction", "scores are the column of %s with descs=%s, but the best "
-                        "feature/direction on a training fold is %s (%d targets)" % (fb[0], list(descs), sorted(best_pairs), B)))
+                        "feature/direction on a training fold is %s (%d targets; largest count per fold: %s)"
+                        % (fb[0], list(descs), sorted(best_pairs), B, list(FOLD_BEST))))
     else:
         # (b) at least as many targets as the best single feature during training
         A = sum(n_accepted(s, t, c["test_fdr"], bool(dsc)) for s, t, dsc in zip(flat, tgts, descs))
         if A < B:
             bad.append(("worse-than-best-feature-no-fallback", "returned scores accept %d targets at %g, the best feature "
-                        "accepted %d on a training fold at %g, and the scores are not a feature column"
-                        % (A, c["test_fdr"], B, c["train_fdr"])))
+                        "accepted %d on a training fold at %g (largest count per fold: %s), and the scores are not a feature "
+                        "column" % (A, c["test_fdr"], B, c["train_fdr"], list(FOLD_BEST))))
     res = ("bad" if bad else kind, "", bad)
     return res + (((dss, frames, scores, descs),) if want_result else ())
 
@@ -336,6 +415,7 @@ def gen_brew_cases(tier, seed):
         cases.append(c)
     cases += gen_outlier_brew_cases(tier, seed)
     cases += gen_eval_fdr_brew_cases(tier, seed)
+    cases += gen_fold_layout_brew_cases(tier, seed)
     return cases
 
 
@@ -405,6 +485,49 @@ def gen_eval_fdr_brew_cases(tier, seed):
     return cases
 
 
+N_FOLD_LAYOUT = {"quick": (24, 12), "thorough": (300, 150)}
+
+
+def gen_fold_layout_brew_cases(tier, seed):
+    """Folds whose best single feature differs (build_fold_frames); own random stream.
+    switch: the informative f0 values sit in the rows of ONE test fold (`poor`: the model of that fold cannot see them and
+    starts from a weak feature - f1 in the opposite direction, or f0 itself read from its bad end - with a smaller count,
+    the other models start from f0); estimators that cannot learn, invert, memorise or reproduce f0: the fallback has to
+    be f0 in its good direction whichever fold is the poor one. 1 of 3 with Model(direction='f0') when the weak feature
+    is f0.
+    graded: every model starts from f0, the share of good targets differs by test fold (0.9 in fold `poor`, 0.1-0.3 in the
+    others), and the estimator passes training but loses 5-8 sixteenths of the held-out rows: the learned scores accept
+    fewer targets than f0 did on the training rows of the best fold, and more than on those of the poorest.
+    `poor` is the LAST fold in every second case, otherwise one of the others."""
+    rng = np.random.default_rng([seed, 7008])
+    n_switch, n_graded = N_FOLD_LAYOUT[tier]
+    cases = []
+    for k in range(n_switch + n_graded):
+        folds = 2 + (k // 2) % 2 if tier == "quick" else 2 + (k // 2) % 3
+        poor = folds - 1 if k % 2 == 0 else int(rng.integers(0, folds - 1))
+        files = 1 + (k // 4) % 2
+        c = dict(n_spec=[int(rng.integers(100, 160)) * folds // files for _ in range(files)], dup=1,
+                 data_seed=int(rng.integers(0, 10 ** 6)), encoding=list(ENCODINGS)[k % 3], lower=bool((k // 3) % 2),
+                 fmt=["parquet", "tab"][(k // 2) % 2], train_fdr=float(rng.choice([0.125, 0.25])),
+                 test_fdr=float(rng.choice([0.125, 0.25])), max_iter=int(rng.integers(1, 3)), folds=folds,
+                 rng=int(rng.integers(0, 10 ** 6)))
+        if k < n_switch:
+            weak = ["f1", "f0"][(k // 6) % 2]
+            c["est"] = ["const-dec", "inverted-dec", "memo-proba", "const-proba", "good-dec", "inverted-dec"][k % 6]
+            c["layout"] = dict(kind="switch", poor=poor, rich=float(rng.uniform(0.7, 0.95)), weak=weak,
+                               weak_frac=float(rng.uniform(0.1, 0.2)))
+            if weak == "f0" and k % 3 == 2:
+                c["direction"] = "f0"
+        else:
+            fracs = [float(rng.uniform(0.1, 0.3)) for _ in range(folds)]
+            fracs[poor] = 0.9
+            c["est"] = "lossy-memo-proba"
+            c["est_kw"] = dict(loss=int(rng.integers(5, 9)))
+            c["layout"] = dict(kind="graded", poor=poor, fracs=fracs)
+        cases.append(c)
+    return cases
+
+
 def gen_outlier_brew_cases(tier, seed):
     """Model(direction='f0') (2 of 3; else automatic choice) on data where a few genuine targets sit beyond every decoy
     at the BAD end of f0, enough of them for f0 ranked the wrong way to accept some PSMs on the training rows of a fold.
@@ -449,22 +572,38 @@ def check_fallback(tier, seed):
                "exceeds the top blocks; lax = test_fdr in {1/32,3/64,1/16} with train_fdr in {1/128,1/64}, 1-2 files of "
                "700-1500 PSMs plus ceil(2/test_fdr)+0..10 targets beyond every decoy at the bad end; reproducing / memorising "
                "/ inverted estimators, folds 2-3, 3 encodings, both file formats, higher/lower-is-better, 1 of 3 (1 of 4) with "
-               "Model(direction='f0'), every fifth strict case with f0 rounded to 1 decimal. In every returned run each fold "
+               "Model(direction='f0'), every fifth strict case with f0 rounded to 1 decimal; + %d + %d configurations (own "
+               "stream of seed %d) whose folds disagree about the best feature (1-2 files, %s folds, 100-159 PSMs per fold, "
+               "one PSM per spectrum, features filled in by test fold as read from the split of the spectrum columns, "
+               "train/test fdr in {0.125,0.25}, 3 encodings, both formats, higher/lower-is-better): switch = f0 ~ N(8,1) for "
+               "70-95%% of the targets of ONE test fold only, plus a weak feature (f1 towards the opposite end, or f0's own bad "
+               "end; 10-20%% of the targets) from which the model of that fold has to start, with constant / inverted / "
+               "memorising / reproducing estimators, 1 of 3 of the f0-weak cases with Model(direction='f0'); graded = 90%% good "
+               "targets in one test fold and 10-30%% in the others with an estimator that passes training and pushes 5-8 of 16 "
+               "residue classes of held-out rows to the bottom; the fold that cannot see the good rows is the LAST fold in "
+               "every second case, else an earlier one. In every returned run each fold "
                "model's feat_pass/best_feat/desc is compared with the independent count on that fold's training rows, and the "
                "returned scores are counted independently at test_fdr"
                % ("1" if tier == "quick" else "12", 40 if tier == "quick" else 600, seed, N_OUTLIER_BREW[tier], seed,
-                  N_EVAL_FDR_BREW[tier][0], N_EVAL_FDR_BREW[tier][1], seed),
+                  N_EVAL_FDR_BREW[tier][0], N_EVAL_FDR_BREW[tier][1], seed, N_FOLD_LAYOUT[tier][0], N_FOLD_LAYOUT[tier][1],
+                  seed, "2-3" if tier == "quick" else "2-4"),
                "non-trivial = brew returned and either fell back to a feature column or returned model scores that were "
                "compared with the best feature's count on the training folds; loud failures (documented RuntimeErrors) and "
                "override=True runs are evaluations only")
-    found, kinds = [], {}
+    found, kinds, disagree = [], {}, [0, 0, 0]
     with scratch("c07_") as d:
         for c in cases:
             kind, msg, bad = run_brew_case(c, d)
             kinds[kind] = kinds.get(kind, 0) + 1
             ck.case(c, nontrivial=kind in ("fallback", "model"))
             found += [(cid, what, c) for cid, what in bad]
+            if FOLD_BEST and min(FOLD_BEST) < max(FOLD_BEST):       # compared runs whose folds' best counts differ
+                disagree[0] += 1
+                disagree[1] += FOLD_BEST[-1] < max(FOLD_BEST)
+                disagree[2] += FOLD_BEST[0] < max(FOLD_BEST)
     ck.rule += "; outcomes: %s" % json.dumps(kinds, sort_keys=True)
+    ck.rule += ("; compared runs in which the folds' best-feature counts differ: %d (the last fold is not the largest: %d, the "
+                "first is not: %d)" % tuple(disagree))
     report(ck, found)
     return ck
 
@@ -963,6 +1102,10 @@ if __name__ == "__main__":
          ["'the best single feature did during training' is taken as: accepted targets at train_fdr on the training rows "
           "(complement of a fold, fold structure read from OnDiskPsmDataset._split) maximised over features, directions "
           "and folds; with Model(direction=f) only feature f",
+          "when the folds disagree about the best feature (fold-layout cases) the fallback has to be the feature and direction "
+          "of a fold with the LARGEST count, and learned scores are compared with that largest count; the test fold of a row "
+          "is read from OnDiskPsmDataset._split of a skeleton file with the same spectrum columns (the split does not depend "
+          "on the features or the rng)",
           "the count a model records as feat_pass is what brew later compares with the learned scores, so it has to be the "
           "number of targets its starting feature accepts at train_fdr in the direction it hands on; where both directions "
           "of a feature (or two features) accept equally many, either choice is accepted",
